@@ -1,5 +1,6 @@
 import FluentProofs.Memo
 import FluentProofs.MemoIntl
+import FluentProofs.MemoReenter
 import FluentProofs.MemoConc
 /-!
 # C14 — the formatter memoizer constructs each formatter once per key, under any schedule
@@ -147,6 +148,33 @@ theorem C14_shared_while_in_use (pre mid : List (MOp σ L τ α ι ρ)) (l : L) 
     rw [h2]; simp
   obtain ⟨ht, o, ho⟩ := shared_while_alive X mid r.1 (MInv_step X s₁ _ hi₁) h oid' l hlt (fun _ => h3) halive
   exact ⟨o, ho, getForLang_alive X s₃ l oid' o ht ho⟩
+
+/-- **shared while in use, seen from inside a lookup** (`reenter_same`).  `MOp.lookupReenter h op` is a
+`with_try_get` through handle `h` whose callback, while the lookup is still active, calls `get_for_lang` for the
+memoizer's own language, compares the `Rc` it gets with the one it runs on and drops it.  In every reachable state
+(`pre`, `mid`: any histories, re-entrant lookups included), if `h` is the handle `get_for_lang(l)` handed out and it
+has not been dropped, the inner call is handed the very memoizer the lookup runs on: the flag is `some true`
+whenever the callback ran, `none` when the construction failed (no callback) – never `some false`. -/
+theorem C14_reenter_same (pre mid : List (MOp σ L τ α ι ρ)) (l : L) (op : Op σ τ α ι ρ) :
+    let s₁ := mafter X w₀ pre
+    let h := s₁.handles.length
+    let s₃ := (mrun X mid (mstep (ρ := ρ) X s₁ (.getForLang l)).1).2
+    (∃ oid, s₃.handles[h]? = some (some oid)) →
+    ∃ out ev, (mstep X s₃ (.lookupReenter h op)).2 = .resReenter out ev (sameOk out) :=
+  reenter_same X w₀ pre mid l op
+
+/-- **the re-entrant call is transparent** (`reenter_transparent`): under the same hypotheses the re-entrant lookup
+ends in exactly the state of the plain lookup (strong counts, table, id counter, handles, caches, world) with the
+same outcome and construct event. -/
+theorem C14_reenter_transparent (pre mid : List (MOp σ L τ α ι ρ)) (l : L) (op : Op σ τ α ι ρ) :
+    let s₁ := mafter X w₀ pre
+    let h := s₁.handles.length
+    let s₃ := (mrun X mid (mstep (ρ := ρ) X s₁ (.getForLang l)).1).2
+    (∃ oid, s₃.handles[h]? = some (some oid)) →
+    (mstep X s₃ (.lookupReenter h op)).1 = (mstep X s₃ (.lookup h op)).1 ∧
+    ∃ out ev same, (mstep X s₃ (.lookupReenter h op)).2 = .resReenter out ev same ∧
+      (mstep X s₃ (.lookup h op)).2 = .res out ev :=
+  reenter_transparent X w₀ pre mid l op
 
 /-- **independent across languages**: a memoizer handed out for `l₁` and one handed out later for `l₂ ≠ l₁`
 are never the same allocation, whatever happened in between -/
@@ -387,6 +415,42 @@ example : (mrun XE mhist (MState.init 0)).1.map obsOid =
     [some 0, none, some 0, none, some 1, none, none, some 2, none] := by decide
 example : (mrun XE mhist (MState.init 0)).1.map constructed =
     [false, true, false, false, false, false, false, false, true] := by decide
+
+/-- the `same` flag of a re-entrant lookup -/
+def sameFlag : MObs Nat Nat Nat Nat Nat Nat → Option (Option Bool)
+  | .resReenter _ _ b => some b
+  | _ => none
+
+/-- re-entrant lookups: through a `get_for_lang` handle (same), through an unregistered `newLang` handle while the
+registered memoizer of that language is alive (the inner call upgrades the OTHER one), with a failing construction
+(no callback), after the registered one was freed (the inner call allocates a fresh memoizer, registers it and
+drops it again: the table is left with a dead weak reference and id 2 is used up), through a fresh registered one -/
+def rhist : List (MOp Nat Nat Nat Nat Nat Nat) :=
+  [.getForLang 0, .lookupReenter 0 (op 0 1 0), .newLang 0, .lookupReenter 1 (op 0 1 0),
+   .lookupReenter 1 (op 0 7 0), .drop 0, .lookupReenter 1 (op 0 1 0), .getForLang 0, .lookupReenter 2 (op 0 7 0),
+   .lookupReenter 2 (op 0 1 0), .lookupReenter 0 (op 0 1 0)]
+
+example : (mrun XE rhist (MState.init 0)).1.map sameFlag =
+    [none, some (some true), none, some (some false), some none, none, some (some false), none, some none,
+     some (some true), none] := by decide
+/-- handle numbers do not shift (the `get_for_lang` after three re-entrant lookups is handle 2), the inner
+allocation used up id 2, strong counts are back to the number of live handles -/
+example : (mrun XE rhist (MState.init 0)).1.map obsOid =
+      [some 0, none, some 1, none, none, none, none, some 3, none, none, none] ∧
+    (mafter XE 0 rhist).handles = [none, some 1, some 3] ∧ (mafter XE 0 rhist).table = [(0, 3)] ∧
+    (mafter XE 0 rhist).next = 4 ∧
+    ((mafter XE 0 rhist).heap.map fun p => (p.1, p.2.strong)) = [(1, 1), (3, 1)] := by decide
+/-- after the re-entrant lookup through the unregistered handle 1 (registered memoizer freed before): the table
+holds a dead weak reference to the temporary memoizer 2 -/
+example : (mafter XE 0 (rhist.take 7)).table = [(0, 2)] ∧ (mafter XE 0 (rhist.take 7)).next = 3 ∧
+    ((mafter XE 0 (rhist.take 7)).heap.map fun p => (p.1, p.2.strong)) = [(1, 1)] := by decide
+
+/-- the hypothesis of `C14_reenter_same` / `C14_reenter_transparent` is satisfiable (pre = [], mid = a re-entrant
+lookup, an unregistered memoizer of the same language and a re-entrant lookup through it) -/
+example :
+    let r := mstep (ρ := Nat) XE (mafter XE 0 ([] : List (MOp Nat Nat Nat Nat Nat Nat))) (.getForLang 0)
+    (mrun XE [.lookupReenter 0 (op 0 1 0), .newLang 0, .lookupReenter 1 (op 0 1 0)] r.1).2.handles[0]?
+      = some (some 0) := by decide
 
 /-- the hypotheses of `C14_shared_while_in_use` are satisfiable (pre = [], mid = lookup, other language, drop) -/
 example :
